@@ -3,6 +3,7 @@ package main
 import (
 	"fmt"
 	"strconv"
+	"strings"
 	"time"
 
 	"verifharness/hx"
@@ -71,6 +72,17 @@ func (r *rot) queries(negToo bool) {
 			param string
 			tso   int64
 		}{strconv.Itoa(int(w)), int64(w)})
+	}
+	// the recent-reports window of every device key (authorized, banned, unknown) and malformed requests
+	for _, k := range []string{"d1", "d2", "d3", "d4", "x1"} {
+		if r.KR.Has(k) {
+			r.QueryRecent(k, "")
+			r.nq++
+		}
+	}
+	for _, raw := range []string{"<absent>", "zz", "abcd", strings.Repeat("ab", 33)} {
+		r.QueryRecent("x1", raw)
+		r.nq++
 	}
 	for _, c := range classes {
 		r.QueryStats(c.param, c.tso, false)
